@@ -104,6 +104,25 @@ template <typename T> static int macro_rel(const std::string& n, T a, T b) {
   return 0;
 }
 
+// operand hygiene: operands with a top-level ?: (binds looser than the relational operators)
+template <typename T> static int macro_hyg(const std::string& n, bool ca, T a, T a2, bool cb, T b, T b2) {
+  bool threw = false, want = false; T va = ca ? a : a2, vb = cb ? b : b2;
+  try {
+    if (n == "eq") { want = va == vb; expect_eq(ca ? a : a2, cb ? b : b2); }
+    else if (n == "ne") { want = va != vb; expect_ne(ca ? a : a2, cb ? b : b2); }
+    else if (n == "gt") { want = va > vb; expect_gt(ca ? a : a2, cb ? b : b2); }
+    else if (n == "ge") { want = va >= vb; expect_ge(ca ? a : a2, cb ? b : b2); }
+    else if (n == "lt") { want = va < vb; expect_lt(ca ? a : a2, cb ? b : b2); }
+    else if (n == "le") { want = va <= vb; expect_le(ca ? a : a2, cb ? b : b2); }
+    else return 2;
+  } catch (const expectation_failed& e) { threw = true; }
+  printf("expect_%s(%d ? %Lg : %Lg, %d ? %Lg : %Lg)\n", n.c_str(), (int)ca, (long double)a, (long double)a2, (int)cb, (long double)b, (long double)b2);
+  RCHECK(threw == !want, "expect_%s(x ? a : a2, y ? b : b2): relation between the operand values is %s but the macro %s", n.c_str(),
+         want ? "true" : "false", threw ? "threw" : "did not throw");
+  printf("holds on this input\n");
+  return 0;
+}
+
 // expect(p) / expect_msg(p, m) with an operand of type T: fails exactly when p converts to false (p == 0)
 template <typename T>
 static int macro_expect(const std::string& n, T a) {
@@ -166,6 +185,13 @@ int main(int argc, char** argv) {
     if (E == "bad_alloc") return raises<std::bad_alloc>(k, line);
     if (E == "expectation_failed") return raises<expectation_failed>(k, line);
     return 2;
+  }
+  if (m == "macro_hyg" && A.extra.size() == 2) {
+    const std::string& n = A.extra[0];
+    bool ca = A.u("in_ca") != 0, cb = A.u("in_cb") != 0;
+    uint64_t u[4] = {A.u("in_a"), A.u("in_a2"), A.u("in_b"), A.u("in_b2")};
+    if (A.extra[1] == "double") { double d[4]; memcpy(d, u, 32); return macro_hyg<double>(n, ca, d[0], d[1], cb, d[2], d[3]); }
+    return macro_hyg<int64_t>(n, ca, (int64_t)u[0], (int64_t)u[1], cb, (int64_t)u[2], (int64_t)u[3]);
   }
   if (m == "macro" && A.extra.size() == 2) {
     const std::string& n = A.extra[0];
